@@ -111,7 +111,8 @@ def run_mixture(case, R):
         R.count('left domain: a class lost all mass')
         R.undecided('C09.model', 'class without mass')
         return
-    domain.check_model(R, model, s.copts, monitor='C09.model', where=f'{kind}.fit result')
+    zero_prior = any((np.asarray(e['model'].weight, dtype=float) == 0).any() for e in ev[:-1])
+    domain.check_model(R, model, dict(s.copts, zero_columns_ok=True) if zero_prior else s.copts, monitor='C09.model', where=f'{kind}.fit result')
     g = guards_active(kind, model, s.copts)
     for name in g:
         R.count('guard active: ' + name)
